@@ -490,7 +490,12 @@ pub fn gen(a: &Args) -> String {
     out.buf.push_str(sys::RULE);
     out.buf.push('\n');
     let n_cases = if a.thorough { 40000 } else { 4000 };
+    // development aid: `--only sys` skips the table-level cases
+    let only_sys = a.extra.get("only").map(|v| v == "sys").unwrap_or(false);
     for id in 0..n_cases {
+        if only_sys {
+            break;
+        }
         let mut cr = r.fork();
         match cr.below(8) {
             0 => gen_case::<1>(id, &mut cr, a.thorough, &mut out),
